@@ -907,7 +907,13 @@ func (ex *Exec) loopIdx(fr *Frame, li *loopInfo, st *State) Term {
 				if ld, ok := side.(*ssa.UnOp); ok && ld.Op == token.MUL {
 					if a, ok := ld.X.(*ssa.Alloc); ok && isLocalCell(a) && storedInLoop(fr.fn, li, a) {
 						if v, ok := st.locals[a]; ok {
-							ex.vc.Assumptions[fmt.Sprintf("idx() of loop %d of %s read as the loop counter %s (the loop is no longer a range loop)", li.ord, fr.fn.Name(), a.Comment)] = true
+							ex.vc.Assumptions[fmt.Sprintf("idx() of loop %d of %s read as the number of steps of the loop counter %s (the loop is no longer a range loop)", li.ord, fr.fn.Name(), a.Comment)] = true
+							// completed iterations: the counter minus its value on entry to the loop
+							if pre := fr.loopPre[li]; pre != nil {
+								if v0, ok := pre.locals[a]; ok {
+									return Sub(ex.scalar(v), ex.scalar(v0))
+								}
+							}
 							return ex.scalar(v)
 						}
 					}
